@@ -24,7 +24,30 @@ package lexeme
 //@   ensures result.$arr == lex.file.content.$arr && result.$off == lex.file.content.$off + lex.begin && len(result) == lex.end + 1 - lex.begin && cap(result) == cap(lex.file.content) - lex.begin
 
 // every panic leaving a function guarded by this deferred call is a positioned
-// document error: library errors are positioned at the start of the lexeme
+// document error: an already positioned error passes through UNCHANGED, a library
+// error is positioned at the start of the lexeme, anything else becomes a generic
+// positioned error.  (`recovered` names what recover() returns; the library errors
+// reaching it are well-formed by the C07 sweep over every construction site.)
 //@ func CatchLexEventError(lex)
 //@   props C07 C17
 //@   inline
+//@   assumes (typeis(recovered, errors.Errorf) || typeis(recovered, errors.ErrorCode)) ==> errWF(recovered)
+//@   assumes !typeis(recovered, *errors.Errorf) && !typeis(recovered, *errors.ErrorCode) && !typeis(recovered, *errors.DocumentError)
+//@   maypanic
+//@   ensures tag(recovered) == 0 ==> normal
+//@   ensures tag(recovered) != 0 ==> panics && typeis(pv, errors.DocumentError)
+//@   ensures typeis(recovered, errors.DocumentError) ==> pv == recovered
+//@   ensures typeis(recovered, errors.Errorf) || typeis(recovered, errors.ErrorCode) ==> unbox(pv, errors.DocumentError).index == lex.begin && unbox(pv, errors.DocumentError).hasIndex && unbox(pv, errors.DocumentError).file == lex.file && unbox(pv, errors.DocumentError).code == errCodeOf(recovered)
+
+// (with an empty name the call is forwarded to CatchLexEventError, whose recover()
+// is then no longer called directly by the deferred function and returns nil: the
+// panic travels on unchanged to the next handler)
+//@ func CatchLexEventErrorWithIncorrectUserType(lex, name)
+//@   props C07 C17
+//@   assumes (typeis(recovered, errors.Errorf) || typeis(recovered, errors.ErrorCode)) ==> errWF(recovered)
+//@   assumes !typeis(recovered, *errors.Errorf) && !typeis(recovered, *errors.ErrorCode) && !typeis(recovered, *errors.DocumentError)
+//@   maypanic
+//@   ensures tag(recovered) == 0 || len(name) == 0 ==> normal
+//@   ensures tag(recovered) != 0 && len(name) != 0 ==> panics && typeis(pv, errors.DocumentError)
+//@   ensures len(name) != 0 && typeis(recovered, errors.DocumentError) ==> unbox(pv, errors.DocumentError).index == unbox(recovered, errors.DocumentError).index && unbox(pv, errors.DocumentError).file == unbox(recovered, errors.DocumentError).file && unbox(pv, errors.DocumentError).code == unbox(recovered, errors.DocumentError).code
+//@   ensures len(name) != 0 && (typeis(recovered, errors.Errorf) || typeis(recovered, errors.ErrorCode)) ==> unbox(pv, errors.DocumentError).index == lex.begin && unbox(pv, errors.DocumentError).hasIndex && unbox(pv, errors.DocumentError).file == lex.file && unbox(pv, errors.DocumentError).code == errCodeOf(recovered)
